@@ -1,4 +1,66 @@
-(* C03 placeholder, replaced below *)
-From RV Require Import Model.Mapping.
-Theorem C03_placeholder : True. Proof. exact I. Qed.
-Eval cbv in "ASSUMPTIONS-OF C03_placeholder"%string. Print Assumptions C03_placeholder.
+(* C03  A whole-value reference yields the final rendered value at its path.  Statements only;
+   proofs in Proofs/RefFacts.v, StateIndep.v, Mono.v, InterpFacts.v about Model/Interp.v.
+   PARTIAL: the general statement for multi-segment paths (a:b:c, where intermediate segments
+   are themselves references or multi-layer values, looked up "on the fly") needs the
+   commutation "lookup after full interpolation = interpolation after on-the-fly lookup", which
+   is not proved; it is covered by the self-consistency oracle out[k] == out@path of the check
+   on every run.  Proved: the single-segment case in full, result uniqueness (state / fuel /
+   order independence of successful results), and the error for a missing key. *)
+From RV Require Import Model.Interp Proofs.WfFacts Proofs.InterpFacts Proofs.StateIndep Proofs.Mono Proofs.RefFacts.
+
+(** A parameter whose whole value is a reference ${k} to a top-level parameter renders to exactly
+    what k's own value renders to -- same kind, same data -- whatever the state (position in
+    the tree, references met before) and fuel with which either is rendered. *)
+Theorem C03_whole_reference_is_the_rendered_target :
+  forall root k v0 F st r st' F' st0 rk st0',
+    wf (VMap root) ->
+    split_on ":" k = [k] -> m_get (VStr k) root = Some v0 ->
+    token_render F root (TRef [TLit k]) st = Ok (r, st') ->
+    interp F' root v0 st0 = Ok (rk, st0') ->
+    r = rk.
+Proof. exact whole_reference_is_target_render. Qed.
+Eval cbv in "ASSUMPTIONS-OF C03_whole_reference_is_the_rendered_target"%string. Print Assumptions C03_whole_reference_is_the_rendered_target.
+
+(** The rendered value of anything is unique: it does not depend on the resolution state (so
+    not on where, after what, or in which order of keys it is rendered) nor on the fuel. *)
+Theorem C03_rendered_value_is_unique :
+  forall root v f1 f2 s1 s2 r1 t1 r2 t2,
+    interp f1 root v s1 = Ok (r1, t1) -> interp f2 root v s2 = Ok (r2, t2) -> r1 = r2.
+Proof. exact interp_result_unique. Qed.
+Eval cbv in "ASSUMPTIONS-OF C03_rendered_value_is_unique"%string. Print Assumptions C03_rendered_value_is_unique.
+
+(** The kind is preserved because the result is the target's render, and that is closed data. *)
+Theorem C03_result_is_closed_data :
+  forall f root v st v' st', wf (VMap root) -> wf v -> interp f root v st = Ok (v', st') -> closed v' /\ wf v'.
+Proof. exact interp_closed. Qed.
+Eval cbv in "ASSUMPTIONS-OF C03_result_is_closed_data"%string. Print Assumptions C03_result_is_closed_data.
+
+(** A path whose first key does not exist is an error naming the reference, the missing key and
+    the parameter being rendered. *)
+Theorem C03_missing_key_is_an_error :
+  forall f root parts st path k0 segs,
+    depth st < RESOLVE_MAX_DEPTH ->
+    token_slice f root parts (with_depth st (S (depth st))) = Ok path ->
+    mem path (seen st) = false -> split_on ":" path = k0 :: segs -> m_get (VStr k0) root = None ->
+    token_resolve (S f) root (TRef parts) st = Err (EMissingKey path k0 (current_key st)).
+Proof. exact missing_key_error. Qed.
+Eval cbv in "ASSUMPTIONS-OF C03_missing_key_is_an_error"%string. Print Assumptions C03_missing_key_is_an_error.
+
+(** More fuel never changes a result (fuel is the model's call-depth bound, not an input). *)
+Theorem C03_fuel_irrelevant :
+  forall root f f' v st r, f <= f' -> interp f root v st = r -> r <> OutOfFuel -> interp f' root v st = r.
+Proof. exact interp_fuel_mono. Qed.
+Eval cbv in "ASSUMPTIONS-OF C03_fuel_irrelevant"%string. Print Assumptions C03_fuel_irrelevant.
+
+(** Non-vacuity: a reference into a three-layer mapping defined after the referencing key, and a
+    nested path. *)
+Example C03_nonvacuous :
+  let root := [ mk_entry (VStr "r") (VStr "${t}") false false;
+                mk_entry (VStr "p") (VStr "${t:${seg}}") false false;
+                mk_entry (VStr "seg") (VStr "y") false false;
+                mk_entry (VStr "t") (VList [VMap [mk_entry (VStr "x") (VNum (NInt 1)) false false];
+                                            VMap [mk_entry (VStr "y") (VSeq [VBool true]) false false];
+                                            VMap [mk_entry (VStr "x") (VNum (NInt 3)) false false]]) false false ] in
+  exists m, render_with_self 60 (VMap root) = Ok (VMap m) /\
+    m_get (VStr "r") m = m_get (VStr "t") m /\ m_get (VStr "p") m = Some (VSeq [VBool true]).
+Proof. cbn zeta. eexists. split; [vm_compute; reflexivity|]. split; vm_compute; reflexivity. Qed.
